@@ -118,7 +118,7 @@ class Sym:
 
 TRUE, FALSE, NONE, OPAQUE = Sym("const", True), Sym("const", False), Sym("const", None), Sym("opaque")
 TAINTING = {"self", "thread", "stdouts", "patches", "contexts"}      # passing these to unknown code may change them
-NOT_NONE = {"self", "thread", "stdouts", "patches", "contexts", "buf", "exc", "curthread", "selfattr_method",
+NOT_NONE = {"self", "thread", "stdouts", "patches", "contexts", "buf", "text", "exc", "curthread", "selfattr_method",
             "claimfn_bound", "modfunc", "builtin", "cls_thread", "cls_sandbox", "mod"}
 ALWAYS_TRUE = {"self", "thread", "buf", "exc", "curthread", "claimfn_bound", "modfunc", "builtin", "cls_thread",
                "cls_sandbox", "mod"}
@@ -127,6 +127,8 @@ EXC_NAMES = {"TimeoutError", "SystemExit", "BaseException", "Exception", "ValueE
              "AssertionError", "TypeError", "IndexError", "KeyError", "AttributeError", "OSError", "SystemError"}
 PURE_BUILTINS = {"len", "bool", "isinstance", "type", "str", "repr", "int", "id", "print", "format", "tuple", "list",
                  "iter", "next", "callable", "any", "all", "sorted", "reversed", "enumerate", "zip", "range", "min", "max"}
+PURE_METHODS = {"getvalue", "get", "keys", "values", "items", "copy", "format", "split", "rstrip", "strip", "lstrip", "join",
+                "startswith", "endswith", "get_lines", "get_files_lines", "count", "index", "lower", "upper"}
 CATCHES = {   # which handler types catch which raised kind
     "TimeoutError": {"TimeoutError", "OSError", "Exception", "BaseException", None},
     "SystemExit": {"SystemExit", "BaseException", None},
@@ -236,6 +238,8 @@ class Exec:
             if name == "__class__":
                 return Sym("cls_sandbox")
             return Sym("selfattr", name)
+        if k in ("selfattr", "derived"):
+            return Sym("derivedattr", name)       # something reached through the sandbox: `self.x.y`
         if k == "cls_sandbox":
             return Sym("selfattr", name)
         if k == "thread":
@@ -254,6 +258,8 @@ class Exec:
             return Sym("patchesattr", name)
         if k == "contexts":
             return Sym("contextsattr", name)
+        if k == "buf":
+            return Sym("bufattr", name)
         return OPAQUE
 
     # -- expressions
@@ -286,6 +292,11 @@ class Exec:
             return self.ev(n.value, fr, lambda v: k(OPAQUE))
         if isinstance(n, ast.Lambda):
             return k(OPAQUE)
+        if isinstance(n, ast.Subscript):
+            def on_base(b):
+                reached = b.kind in ("selfattr", "derived", "contexts", "stdouts", "patches")
+                return self.ev(n.slice, fr, lambda i: k(Sym("derived") if reached else OPAQUE))
+            return self.ev(n.value, fr, on_base)
         kids = [c for c in ast.iter_child_nodes(n) if isinstance(c, ast.expr)]
         return self.ev_list(kids, fr, lambda vs: k(OPAQUE))
 
@@ -433,6 +444,14 @@ class Exec:
             if f.data in ("copy", "count", "index", "__len__"):
                 return k(OPAQUE)
             return self.opaque_eff(n, "operation on the context list", lambda: k(OPAQUE))
+        if kind == "derivedattr":
+            # a method of an object reached through the sandbox (`self.report.x()`, `self.__dict__[...].pop()`): it may
+            # well be one of the stacks under another name - not understood, so no NEGATIVE fact may rest on it
+            if f.data in PURE_METHODS:
+                return k(OPAQUE)
+            return self.opaque_eff(n, "method of an object reached through the sandbox", lambda: k(OPAQUE))
+        if kind == "bufattr":
+            return k(Sym("text"))            # `.getvalue()` of the popped buffer: a string, never None
         if kind == "fn_curthread":
             return k(Sym("curthread"))
         if kind == "builtin" and f.data in ("getattr", "hasattr"):
